@@ -101,6 +101,10 @@ type bothTool struct {
 
 func (t bothTool) Info(ctx context.Context) (*schema.ToolInfo, error) { return t.invTool.Info(ctx) }
 
+// GetType (components.Typer): every tool has an implementation type of its own
+func (t *callTool) GetType() string { return toolType(t.c) }
+func (t bothTool) GetType() string  { return t.invTool.GetType() }
+
 // nat: the paradigms the unit of a tool call implements (the unknown-tool handler is a plain function: invoke only)
 func (c *GCall) nat() int {
 	if c.Unknown {
@@ -181,7 +185,7 @@ func (rr *runRec) buildToolsSub(n *GNode) (*compose.Graph[vmap, vmap], error) {
 				Function: schema.FunctionCall{Name: unitName(c.UID), Arguments: arg}})
 		}
 		return m, nil
-	})
+	}, compose.WithLambdaType(lambdaType(in)))
 	var tools []tool.BaseTool
 	unknown := map[string]*GCall{}
 	for _, c := range tn.Calls {
@@ -224,7 +228,7 @@ func (rr *runRec) buildToolsSub(n *GNode) (*compose.Graph[vmap, vmap], error) {
 		rr.execs[out.UID] = append(rr.execs[out.UID], bodyRec{In: "<[]*schema.Message>", Out: render(o), OutV: o})
 		rr.mu.Unlock()
 		return o, nil
-	})
+	}, compose.WithLambdaType(lambdaType(out)))
 	if err := g.AddLambdaNode(nodeKey(in.Key), convIn, compose.WithNodeName(unitName(in.UID))); err != nil {
 		return nil, err
 	}
